@@ -4,8 +4,14 @@
 //! `apply_rewrites` under the node budget, then the final e-graph is exported for the verified evaluator.
 //! Start terms come from the arithmetic fragment (var, Num, add, mul, sum, let), rules from FPPOOL (every rule of
 //! which is proved valid in F_p: Sem/FpFacts.v, `fppool_valid`); unions of the history are F_p-valid by construction.
+//! A rule is (rule n (t lhs) (t rhs) C) with C ::= none | (free (t slot) (t var)) | (and C C) | (or C C) | (not C);
+//! C is built with the library's `slot_free_in` / `and` / `or` / `not` (`build_cond`).
 //! Observation (impl.txt):
-//!   (obs (res ok) (its (it <changed> (matches n...) (nodes k))...) [(stopped)] [(err kind)] (redundant k)
+//!   (obs (res ok) (its (it <changed> (matches n...) (nodes k) (guards (g <rule pos> <matches> <cond true> <d1> <d2> <d3>)...))...)
+//!        [(stopped)] [(err kind)] (redundant k)
+//!   (guards: for every rule whose condition uses and / or / not, before the iteration: the matches of its left-hand
+//!    side, those on which the condition is true, and those on which reading `and` as `or` (d1), `or` as `and` (d2),
+//!    dropping `not` (d3) would change the decision - statistics, computed by the harness's own evaluator)
 //!        (export (classes (cls <id> (slots s...) (members T...))...) (handles (h <orig T> <extracted T>)...)))
 //!   (redundant k: the number of exported members that mention a slot which is not a slot of their class)
 //!   or (obs (res err kind)) for a panic in the history / rule construction / export.
@@ -25,60 +31,151 @@ use slotted_egraphs::*;
 pub const PS: &[u64] = &[5, 3, 2];
 pub const NODE_LIMIT: usize = 400;
 
-/// (lhs, rhs, condition `slot_free_in(slot, var)`, variant index of the lhs head, kind)
-/// kind: "" plain, "c" conditional, "s" substitution right-hand side, "r" re-binding (a term moves under a new binder)
+/// the condition of a rule: a tree over `slot_free_in(slot, var)` built with the library's `and` / `or` / `not`
+#[derive(Clone, Copy, Debug, PartialEq)]
+pub enum C { N, F(&'static str, &'static str), And(&'static C, &'static C), Or(&'static C, &'static C), Not(&'static C) }
+const F1A: C = C::F("1", "a"); const F1B: C = C::F("1", "b"); const F1C: C = C::F("1", "c");
+const F2A: C = C::F("2", "a"); const F2B: C = C::F("2", "b");
+
+/// (lhs, rhs, condition, variant index of the lhs head, kind)
+/// kind: "" plain, "c" conditional, "s" substitution right-hand side, "r" re-binding (a term moves under a new binder),
+///       "k" condition built with combinators
 /// MUST be the same list, in the same order, as FPPOOL_text in coq/theories/Sem/Fp.v.
-pub const FPPOOL: &[(&str, &str, Option<(&str, &str)>, u64, &str)] = &[
-    /* 0 */ ("(add ?a ?b)", "(add ?b ?a)", None, 13, ""),
-    /* 1 */ ("(mul ?a ?b)", "(mul ?b ?a)", None, 14, ""),
-    /* 2 */ ("(add (add ?a ?b) ?c)", "(add ?a (add ?b ?c))", None, 13, ""),
-    /* 3 */ ("(mul (mul ?a ?b) ?c)", "(mul ?a (mul ?b ?c))", None, 14, ""),
-    /* 4 */ ("(mul ?a (add ?b ?c))", "(add (mul ?a ?b) (mul ?a ?c))", None, 14, ""),
-    /* 5 */ ("(add ?a 0)", "?a", None, 13, ""),
-    /* 6 */ ("(mul ?a 1)", "?a", None, 14, ""),
-    /* 7 */ ("(mul ?a 0)", "0", None, 14, ""),
-    /* 8 */ ("(sum $1 (add ?a ?b))", "(add (sum $1 ?a) (sum $1 ?b))", None, 15, ""),
-    /* 9 */ ("(sum $1 (mul ?a ?b))", "(mul ?a (sum $1 ?b))", Some(("1", "a")), 15, "c"),
-    /* 10 */ ("(sum $1 (sum $2 ?a))", "(sum $2 (sum $1 ?a))", None, 15, ""),
-    /* 11 */ ("(let $1 ?b ?t)", "?b[(var $1) := ?t]", None, 10, "s"),
-    /* 12 */ ("(sum $1 ?a)", "(sum $2 (let $1 ?a (var $2)))", None, 15, "r"),
-    /* 13 */ ("(let $1 (var $1) ?t)", "?t", None, 10, ""),
-    /* 14 */ ("(let $1 ?b ?t)", "?b", Some(("1", "b")), 10, "c"),
-    /* 15 */ ("(sum $1 ?a)", "0", Some(("1", "a")), 15, "c"),
-    /* 16 */ ("(add (mul ?a ?b) (mul ?a ?c))", "(mul ?a (add ?b ?c))", None, 13, ""),
-    /* 17 */ ("(let $1 (add ?a ?b) ?t)", "(add (let $1 ?a ?t) (let $1 ?b ?t))", None, 10, ""),
-    /* 18 */ ("(let $1 ?b ?t)", "(let $2 (let $1 ?b (var $2)) ?t)", None, 10, "r"),
-    /* 19 */ ("(let $1 (mul ?a ?b) ?t)", "(mul (let $1 ?a ?t) (let $1 ?b ?t))", None, 10, ""),
-    /* 20 */ ("(let $1 (sum $2 ?b) ?t)", "(sum $2 (let $1 ?b ?t))", Some(("2", "t")), 10, "c"),
-    /* 21 */ ("(add ?a ?a)", "(mul 2 ?a)", None, 13, ""),
-    /* 22 */ ("(mul ?a (sum $1 ?b))", "(sum $1 (mul ?a ?b))", Some(("1", "a")), 14, "c"),
-    /* 23 */ ("(let $1 ?b (let $2 ?c ?t))", "(let $2 (let $1 ?b ?c) ?t)", Some(("2", "b")), 10, "c"),
+pub const FPPOOL: &[(&str, &str, C, u64, &str)] = &[
+    /* 0 */ ("(add ?a ?b)", "(add ?b ?a)", C::N, 13, ""),
+    /* 1 */ ("(mul ?a ?b)", "(mul ?b ?a)", C::N, 14, ""),
+    /* 2 */ ("(add (add ?a ?b) ?c)", "(add ?a (add ?b ?c))", C::N, 13, ""),
+    /* 3 */ ("(mul (mul ?a ?b) ?c)", "(mul ?a (mul ?b ?c))", C::N, 14, ""),
+    /* 4 */ ("(mul ?a (add ?b ?c))", "(add (mul ?a ?b) (mul ?a ?c))", C::N, 14, ""),
+    /* 5 */ ("(add ?a 0)", "?a", C::N, 13, ""),
+    /* 6 */ ("(mul ?a 1)", "?a", C::N, 14, ""),
+    /* 7 */ ("(mul ?a 0)", "0", C::N, 14, ""),
+    /* 8 */ ("(sum $1 (add ?a ?b))", "(add (sum $1 ?a) (sum $1 ?b))", C::N, 15, ""),
+    /* 9 */ ("(sum $1 (mul ?a ?b))", "(mul ?a (sum $1 ?b))", C::F("1", "a"), 15, "c"),
+    /* 10 */ ("(sum $1 (sum $2 ?a))", "(sum $2 (sum $1 ?a))", C::N, 15, ""),
+    /* 11 */ ("(let $1 ?b ?t)", "?b[(var $1) := ?t]", C::N, 10, "s"),
+    /* 12 */ ("(sum $1 ?a)", "(sum $2 (let $1 ?a (var $2)))", C::N, 15, "r"),
+    /* 13 */ ("(let $1 (var $1) ?t)", "?t", C::N, 10, ""),
+    /* 14 */ ("(let $1 ?b ?t)", "?b", C::F("1", "b"), 10, "c"),
+    /* 15 */ ("(sum $1 ?a)", "0", C::F("1", "a"), 15, "c"),
+    /* 16 */ ("(add (mul ?a ?b) (mul ?a ?c))", "(mul ?a (add ?b ?c))", C::N, 13, ""),
+    /* 17 */ ("(let $1 (add ?a ?b) ?t)", "(add (let $1 ?a ?t) (let $1 ?b ?t))", C::N, 10, ""),
+    /* 18 */ ("(let $1 ?b ?t)", "(let $2 (let $1 ?b (var $2)) ?t)", C::N, 10, "r"),
+    /* 19 */ ("(let $1 (mul ?a ?b) ?t)", "(mul (let $1 ?a ?t) (let $1 ?b ?t))", C::N, 10, ""),
+    /* 20 */ ("(let $1 (sum $2 ?b) ?t)", "(sum $2 (let $1 ?b ?t))", C::F("2", "t"), 10, "c"),
+    /* 21 */ ("(add ?a ?a)", "(mul 2 ?a)", C::N, 13, ""),
+    /* 22 */ ("(mul ?a (sum $1 ?b))", "(sum $1 (mul ?a ?b))", C::F("1", "a"), 14, "c"),
+    /* 23 */ ("(let $1 ?b (let $2 ?c ?t))", "(let $2 (let $1 ?b ?c) ?t)", C::F("2", "b"), 10, "c"),
+    // rules guarded by condition combinators
+    /* 24 */ ("(sum $1 (mul ?a ?b))", "(mul (mul ?a ?b) (sum $1 1))", C::And(&F1A, &F1B), 15, "k"),
+    /* 25 */ ("(let $1 (add ?a ?b) ?t)", "(add ?a ?b)", C::And(&F1A, &F1B), 10, "k"),
+    /* 26 */ ("(let $1 (mul ?a ?b) ?t)", "(mul ?a ?b)", C::Not(&C::Or(&C::Not(&F1A), &C::Not(&F1B))), 10, "k"),
+    /* 27 */ ("(sum $1 (mul ?a ?b))", "(mul ?a (sum $1 ?b))", C::And(&F1A, &C::Not(&F1B)), 15, "k"),
+    /* 28 */ ("(sum $1 (sum $2 ?a))", "0", C::Or(&F1A, &F2A), 15, "k"),
+    /* 29 */ ("(sum $1 (sum $2 (mul ?a ?b)))", "(mul (sum $1 ?a) (sum $2 ?b))", C::And(&F2A, &F1B), 15, "k"),
+    /* 30 */ ("(mul (sum $1 ?a) (sum $2 ?b))", "0", C::Or(&F1A, &F2B), 14, "k"),
+    /* 31 */ ("(let $1 (let $2 ?b ?c) ?t)", "(let $2 ?b ?c)", C::And(&F1B, &F1C), 10, "k"),
+    /* 32 */ ("(let $1 (add ?a (mul ?b ?c)) ?t)", "(add ?a (mul ?b ?c))", C::And(&F1A, &C::And(&F1B, &F1C)), 10, "k"),
+    /* 33 */ ("(sum $1 (sum $2 (mul ?a ?b)))", "0", C::Or(&C::And(&F1A, &F1B), &C::And(&F2A, &F2B)), 15, "k"),
 ];
+/// the first rule whose condition is built with combinators
+pub const FIRST_COMB: usize = 24;
 
 /// invalid variants of pool rules (`eg3 gen --mutant K`: rule MUTANTS[K].0 of the pool is replaced by the variant in
 /// every generated case that uses it; the model then reports `(unverified-rule n)` and, where the rule fired
 /// unsoundly, `(bad ...)`).  Only used to show that the check can fail.
-pub const MUTANTS: &[(usize, &str, &str, Option<(&str, &str)>)] = &[
-    /* 0 */ (9, "(sum $1 (mul ?a ?b))", "(mul ?a (sum $1 ?b))", None),            // factor out of a sum without slot_free_in
-    /* 1 */ (15, "(sum $1 ?a)", "0", None),                                        // sum = 0 without slot_free_in
-    /* 2 */ (14, "(let $1 ?b ?t)", "?b", None),                                    // drop a let without slot_free_in
-    /* 3 */ (8, "(sum $1 (add ?a ?b))", "(add (sum $1 ?a) ?b)", None),             // not linear
-    /* 4 */ (11, "(let $1 ?b ?t)", "?t[(var $1) := ?b]", None),                    // substitution the wrong way round
-    /* 5 */ (12, "(sum $1 ?a)", "(sum $2 (let $1 ?a (var $1)))", None),            // re-binding with the wrong variable
-    /* 6 */ (7, "(mul ?a 0)", "?a", None),
+pub const MUTANTS: &[(usize, &str, &str, C)] = &[
+    /* 0 */ (9, "(sum $1 (mul ?a ?b))", "(mul ?a (sum $1 ?b))", C::N),            // factor out of a sum without slot_free_in
+    /* 1 */ (15, "(sum $1 ?a)", "0", C::N),                                        // sum = 0 without slot_free_in
+    /* 2 */ (14, "(let $1 ?b ?t)", "?b", C::N),                                    // drop a let without slot_free_in
+    /* 3 */ (8, "(sum $1 (add ?a ?b))", "(add (sum $1 ?a) ?b)", C::N),             // not linear
+    /* 4 */ (11, "(let $1 ?b ?t)", "?t[(var $1) := ?b]", C::N),                    // substitution the wrong way round
+    /* 5 */ (12, "(sum $1 ?a)", "(sum $2 (let $1 ?a (var $1)))", C::N),            // re-binding with the wrong variable
+    /* 6 */ (7, "(mul ?a 0)", "?a", C::N),
+    /* 7 */ (24, "(sum $1 (mul ?a ?b))", "(mul (mul ?a ?b) (sum $1 1))", C::Or(&F1A, &F1B)),       // `or` where the rule needs `and`
+    /* 8 */ (26, "(let $1 (mul ?a ?b) ?t)", "(mul ?a ?b)", C::Or(&F1A, &F1B)),                     // the `not`s dropped
 ];
 
-struct RuleSpec { name: u64, lhs: String, rhs: String, cond: Option<(String, String)> }
+/// the condition of a case's rule (decoded from the wire format)
+#[derive(Clone, Debug)]
+pub enum Cd { N, F(String, String), And(Box<Cd>, Box<Cd>), Or(Box<Cd>, Box<Cd>), Not(Box<Cd>) }
 
-fn rule_sx(name: u64, r: &(&str, &str, Option<(&str, &str)>, u64, &str)) -> Sx {
-    let cond = match r.2 { None => sym("none"), Some((s, v)) => lst(vec![sym("free"), text_sx(s), text_sx(v)]) };
-    lst(vec![sym("rule"), num(name), text_sx(r.0), text_sx(r.1), cond])
+struct RuleSpec { name: u64, lhs: String, rhs: String, cond: Cd }
+
+/// C ::= none | (free (t slot) (t var)) | (and C C) | (or C C) | (not C)
+fn cond_sx(c: &C) -> Sx {
+    match c {
+        C::N => sym("none"),
+        C::F(s, v) => lst(vec![sym("free"), text_sx(s), text_sx(v)]),
+        C::And(a, b) => lst(vec![sym("and"), cond_sx(a), cond_sx(b)]),
+        C::Or(a, b) => lst(vec![sym("or"), cond_sx(a), cond_sx(b)]),
+        C::Not(a) => lst(vec![sym("not"), cond_sx(a)]),
+    }
+}
+fn dec_cond(e: &Sx) -> Cd {
+    match e {
+        Sx::Lst(c) => match c[0].as_sym() {
+            "free" => Cd::F(dec_text(&c[1]), dec_text(&c[2])),
+            "and" => Cd::And(Box::new(dec_cond(&c[1])), Box::new(dec_cond(&c[2]))),
+            "or" => Cd::Or(Box::new(dec_cond(&c[1])), Box::new(dec_cond(&c[2]))),
+            "not" => Cd::Not(Box::new(dec_cond(&c[1]))),
+            x => panic!("harness: condition {}", x),
+        },
+        _ => Cd::N,
+    }
+}
+fn show_cond(c: &Cd) -> String {
+    match c {
+        Cd::N => String::new(),
+        Cd::F(s, v) => format!("free({}, {})", s, v),
+        Cd::And(a, b) => format!("and({}, {})", show_cond(a), show_cond(b)),
+        Cd::Or(a, b) => format!("or({}, {})", show_cond(a), show_cond(b)),
+        Cd::Not(a) => format!("not({})", show_cond(a)),
+    }
+}
+
+fn rule_sx(name: u64, r: &(&str, &str, C, u64, &str)) -> Sx {
+    lst(vec![sym("rule"), num(name), text_sx(r.0), text_sx(r.1), cond_sx(&r.2)])
 }
 fn dec_rule(e: &Sx) -> RuleSpec {
     let l = e.as_lst();
-    let cond = match &l[4] { Sx::Lst(c) => Some((dec_text(&c[1]), dec_text(&c[2]))), _ => None };
-    RuleSpec { name: l[1].as_num(), lhs: dec_text(&l[2]), rhs: dec_text(&l[3]), cond }
+    RuleSpec { name: l[1].as_num(), lhs: dec_text(&l[2]), rhs: dec_text(&l[3]), cond: dec_cond(&l[4]) }
 }
+
+/// the condition handed to `Rewrite::new_if`: every node of the tree is the LIBRARY's combinator
+/// (`slot_free_in`, `and`, `or`, `not` of src/rewrite/mod.rs) applied to the boxed conditions of the children
+/// (a `Box<dyn Fn(&Subst, &EGraph) -> bool>` is itself a `Cond`).  Children are built left to right, so the
+/// slots are named (`Slot::named`) in the order of the leaves.
+type BCond = Box<dyn Fn(&Subst, &EGraph<LV, ()>) -> bool>;
+fn build_cond(c: &Cd) -> BCond {
+    match c {
+        Cd::N => Box::new(|_, _| true),
+        Cd::F(s, v) => Box::new(slot_free_in::<LV, ()>(s, v)),
+        Cd::And(a, b) => { let x = build_cond(a); let y = build_cond(b); Box::new(and::<LV, ()>(x, y)) }
+        Cd::Or(a, b) => { let x = build_cond(a); let y = build_cond(b); Box::new(or::<LV, ()>(x, y)) }
+        Cd::Not(a) => { let x = build_cond(a); Box::new(not::<LV, ()>(x)) }
+    }
+}
+fn build_rewrite(name: &str, lhs: &str, rhs: &str, cond: &Cd) -> Rewrite<LV, ()> {
+    match cond {
+        Cd::N => Rewrite::new(name, lhs, rhs),
+        Cd::F(s, v) => Rewrite::new_if(name, lhs, rhs, slot_free_in::<LV, ()>(s, v)),
+        c => Rewrite::new_if(name, lhs, rhs, build_cond(c)),
+    }
+}
+
+/// the harness's own reading of a condition on one match (statistics only, never part of a verdict):
+/// `slip` 0 = as written, 1 = `and` read as `or`, 2 = `or` read as `and`, 3 = `not` dropped
+fn eval_cond(c: &Cd, subst: &Subst, slip: u8) -> bool {
+    match c {
+        Cd::N => true,
+        Cd::F(s, v) => !subst[&**v].slots().contains(&Slot::named(s)),
+        Cd::And(a, b) => { let (x, y) = (eval_cond(a, subst, slip), eval_cond(b, subst, slip)); if slip == 1 { x || y } else { x && y } }
+        Cd::Or(a, b) => { let (x, y) = (eval_cond(a, subst, slip), eval_cond(b, subst, slip)); if slip == 2 { x && y } else { x || y } }
+        Cd::Not(a) => { let x = eval_cond(a, subst, slip); if slip == 3 { x } else { !x } }
+    }
+}
+fn is_comb(c: &Cd) -> bool { !matches!(c, Cd::N | Cd::F(_, _)) }
 
 fn kind_of_panic() -> &'static str {
     let (_loc, msg) = take_panic().unwrap_or_default();
@@ -138,11 +235,7 @@ pub fn run_case(case: &Sx) -> (Sx, Sx) {
             let mut pats: Vec<Pattern<LV>> = vec![];
             for s in &specs {
                 let name = format!("r{}", s.name);
-                let rw = match &s.cond {
-                    None => Rewrite::new(&name, &s.lhs, &s.rhs),
-                    Some((sl, v)) => { let cnd = slot_free_in::<LV, ()>(sl, v); Rewrite::new_if(&name, &s.lhs, &s.rhs, cnd) }
-                };
-                rws.push(rw);
+                rws.push(build_rewrite(&name, &s.lhs, &s.rhs, &s.cond));
                 pats.push(Pattern::<LV>::parse(&s.lhs).unwrap());
             }
             (rws, pats)
@@ -156,14 +249,27 @@ pub fn run_case(case: &Sx) -> (Sx, Sx) {
         let mut tail: Vec<Sx> = vec![];
         for _it in 0..iters {
             let r = std::panic::catch_unwind(std::panic::AssertUnwindSafe(|| {
-                let counts: Vec<u64> = pats.iter().map(|p| ematch_all(&h.eg, p).len() as u64).collect();
+                let mut counts: Vec<u64> = vec![];
+                // per combinator rule: (rule position, matches, matches on which the condition is true, matches on which
+                // reading `and` as `or` / `or` as `and` / dropping `not` would change the decision)
+                let mut guards: Vec<Sx> = vec![sym("guards")];
+                for (k, p) in pats.iter().enumerate() {
+                    let ms = ematch_all(&h.eg, p);
+                    counts.push(ms.len() as u64);
+                    if is_comb(&specs[k].cond) {
+                        let c = &specs[k].cond;
+                        let t = ms.iter().filter(|m| eval_cond(c, m, 0)).count() as u64;
+                        let d: Vec<u64> = (1..=3u8).map(|sl| ms.iter().filter(|m| eval_cond(c, m, sl) != eval_cond(c, m, 0)).count() as u64).collect();
+                        guards.push(lst(vec![sym("g"), num(k as u64), num(ms.len() as u64), num(t), num(d[0]), num(d[1]), num(d[2])]));
+                    }
+                }
                 let changed = apply_rewrites(&mut h.eg, &rws);
-                (counts, changed)
+                (counts, changed, guards)
             }));
             match r {
-                Ok((counts, changed)) => {
+                Ok((counts, changed, guards)) => {
                     let mut mv = vec![sym("matches")]; mv.extend(counts.iter().map(|c| num(*c)));
-                    its.push(lst(vec![sym("it"), sbool(changed), lst(mv), lst(vec![sym("nodes"), num(h.eg.total_number_of_nodes() as u64)])]));
+                    its.push(lst(vec![sym("it"), sbool(changed), lst(mv), lst(vec![sym("nodes"), num(h.eg.total_number_of_nodes() as u64)]), lst(guards)]));
                 }
                 Err(_) => { let k = kind_of_panic(); tail.push(lst(vec![sym("err"), sym(k)])); break; }
             }
@@ -232,8 +338,41 @@ fn gen_arith(rng: &mut Rng, depth: u64, free: &[u64], scope: &mut Vec<u64>) -> S
     }
 }
 
+/// a random subterm for a pattern variable of a guarded rule: the binders `on` are in scope, and each of them is
+/// (with probability 2/3) forced to occur, so that the slot_free_in leaves of the rule's condition take all
+/// combinations of truth values (both true / exactly one true / none true)
+fn role(rng: &mut Rng, d: u64, free: &[u64], on: &[u64]) -> Sx {
+    let mut sc = on.to_vec();
+    let mut t = gen_arith(rng, d, free, &mut sc);
+    for x in on {
+        if rng.chance(2, 3) { t = if rng.chance(1, 2) { t_mul(t, t_var(*x)) } else { t_add(t_var(*x), t) }; }
+    }
+    t
+}
+fn subset(rng: &mut Rng, xs: &[u64]) -> Vec<u64> { xs.iter().filter(|_| rng.chance(1, 2)).cloned().collect() }
+
+/// a term whose root has the shape of the left-hand side of a rule guarded by and / or / not (rules 24..33)
+fn gen_shaped_comb(rng: &mut Rng, depth: u64, free: &[u64]) -> Sx {
+    let d = depth.max(1) - 1;
+    let x = rng.range(5, 6); let y = rng.range(7, 8);
+    match rng.below(6) {
+        0 => { let sa = subset(rng, &[x]); let sb = subset(rng, &[x]); let a = role(rng, d, free, &sa); let b = role(rng, d, free, &sb); t_sum(x, t_mul(a, b)) }            // 24, 27, 9
+        1 => { let sa = subset(rng, &[x]); let sb = subset(rng, &[x]); let a = role(rng, d, free, &sa); let b = role(rng, d, free, &sb); let t = role(rng, d, free, &[]);
+               if rng.chance(1, 2) { t_let(x, t_add(a, b), t) } else { t_let(x, t_mul(a, b), t) } }                                                                     // 25, 26
+        2 => { let sa = subset(rng, &[x, y]); let sb = subset(rng, &[x, y]); let a = role(rng, d, free, &sa); let b = role(rng, d, free, &sb);
+               if rng.chance(1, 4) { t_sum(x, t_sum(y, a)) } else { t_sum(x, t_sum(y, t_mul(a, b))) } }                                                                 // 28, 29, 33
+        3 => { let sa = subset(rng, &[x]); let sb = subset(rng, &[y]); let a = role(rng, d, free, &sa); let b = role(rng, d, free, &sb); t_mul(t_sum(x, a), t_sum(y, b)) } // 30
+        4 => { let sb = subset(rng, &[x, y]); let sc = subset(rng, &[x]); let b = role(rng, d, free, &sb); let c = role(rng, d, free, &sc); let t = role(rng, d, free, &[]);
+               t_let(x, t_let(y, b, c), t) }                                                                                                                            // 31
+        _ => { let sa = subset(rng, &[x]); let sb = subset(rng, &[x]); let sc = subset(rng, &[x]);
+               let a = role(rng, d, free, &sa); let b = role(rng, d, free, &sb); let c = role(rng, d, free, &sc); let t = role(rng, d, free, &[]);
+               t_let(x, t_add(a, t_mul(b, c)), t) }                                                                                                                     // 32
+    }
+}
+
 /// a term whose root has the shape of the left-hand side of a pool rule, with random subterms
 fn gen_shaped(rng: &mut Rng, depth: u64, free: &[u64]) -> Sx {
+    if rng.chance(2, 5) { return gen_shaped_comb(rng, depth, free); }
     let d = depth.max(1) - 1;
     let x = rng.range(5, 6); let y = rng.range(7, 8);
     let mut g = |rng: &mut Rng, scope: &[u64]| { let mut sc = scope.to_vec(); gen_arith(rng, d, free, &mut sc) };
@@ -320,6 +459,9 @@ pub fn gen(a: &Args) -> Vec<String> {
             let i = if !relevant.is_empty() && rng.chance(3, 4) { *rng.pick(&relevant) as u64 } else { rng.below(FPPOOL.len() as u64) };
             if !chosen.contains(&i) { chosen.push(i); }
         }
+        // one more rule guarded by and / or / not whose left-hand side head occurs in the terms
+        let comb: Vec<usize> = relevant.iter().cloned().filter(|i| *i >= FIRST_COMB).collect();
+        if !comb.is_empty() && rng.chance(1, 2) { let i = *rng.pick(&comb) as u64; if !chosen.contains(&i) { chosen.push(i); } }
         let mut rules = vec![sym("rules")];
         for i in &chosen {
             let mut r = FPPOOL[*i as usize];
@@ -360,10 +502,7 @@ pub fn main(a: &Args) {
                 for (i, r) in FPPOOL.iter().enumerate() {
                     let ok = std::panic::catch_unwind(|| {
                         let name = format!("r{}", i);
-                        match r.2 {
-                            None => { let _ = Rewrite::<LV, ()>::new(&name, r.0, r.1); }
-                            Some((s, v)) => { let _ = Rewrite::<LV, ()>::new_if(&name, r.0, r.1, slot_free_in::<LV, ()>(s, v)); }
-                        }
+                        let _ = build_rewrite(&name, r.0, r.1, &dec_cond(&cond_sx(&r.2)));
                         let l = Pattern::<LV>::parse(r.0).unwrap(); let rr = Pattern::<LV>::parse(r.1).unwrap();
                         format!("{} => {}", l, rr)
                     });
@@ -389,7 +528,7 @@ fn show(e: &Sx, ind: usize) {
         if !l.is_empty() {
             if let Sx::Sym(h) = &l[0] {
                 if h == "rt" { println!("{}{}", " ".repeat(ind), dec_rterm(e)); return; }
-                if h == "rule" { println!("{}rule {} : {} -> {} {:?}", " ".repeat(ind), l[1], dec_text(&l[2]), dec_text(&l[3]), match &l[4] { Sx::Lst(c) => format!("if free({}, {})", dec_text(&c[1]), dec_text(&c[2])), _ => String::new() }); return; }
+                if h == "rule" { println!("{}rule {} : {} -> {} {:?}", " ".repeat(ind), l[1], dec_text(&l[2]), dec_text(&l[3]), match &l[4] { Sx::Lst(_) => format!("if {}", show_cond(&dec_cond(&l[4]))), _ => String::new() }); return; }
                 if l.iter().skip(1).all(|x| !matches!(x, Sx::Lst(_))) { println!("{}{}", " ".repeat(ind), e); return; }
                 println!("{}({}", " ".repeat(ind), h);
                 for x in &l[1..] { show(x, ind + 2); }
